@@ -177,11 +177,11 @@ def judge(res0, net_eq, keep):
     return worst if worst else ("runpp on the returned equivalent does not converge to a normal solution (DC and flat start)", {})
 
 
-def evaluate(net, eq, o, internal, boundary, res0):
+def evaluate(net, eq, o, internal, boundary, res0, more_internal=()):
     """one get_equivalent call + judgement -> dict(kind = ok / diff / raise / none / refused, what, exc, eq_switch, stats)"""
     SPY.clear()
     try:
-        net_eq = get_equivalent(net, eq, list(boundary), list(internal), calculate_voltage_angles=True, **o)
+        net_eq = get_equivalent(net, eq, list(boundary), list(internal) + list(more_internal), calculate_voltage_angles=True, **o)
     except Exception as e:  # noqa
         if isinstance(e, ValueError) and any(r in str(e) for r in REFUSALS):
             return {"kind": "refused"}
@@ -208,7 +208,8 @@ def _ward_as_load_shunt(net, idx):
 
 
 def _xward_as_elements(net, idx):
-    """physically identical replacement of xwards: load + shunt + PV bus behind r+jx (per unit on net.sn_mva)"""
+    """physically identical replacement of xwards: load + shunt + PV bus behind r+jx (per unit on net.sn_mva); returns the new buses"""
+    new = []
     for i in idx:
         w = net.xward.loc[i]
         vn = float(net.bus.vn_kv.at[w.bus])
@@ -218,7 +219,9 @@ def _xward_as_elements(net, idx):
         pp.create_gen(net, nb, 0., vm_pu=w.vm_pu, in_service=bool(w.in_service), name="cf_%d" % nb)
         pp.create_impedance(net, w.bus, nb, w.r_ohm * net.sn_mva / vn ** 2, w.x_ohm * net.sn_mva / vn ** 2, net.sn_mva,
                             in_service=bool(w.in_service), name="cf")
+        new.append(int(nb))
     net.xward.drop(idx, inplace=True)
+    return new
 
 
 def _at(net, el, buses):
@@ -230,20 +233,34 @@ def mechanisms(net, eq, o, internal, boundary):
     """[(name, transform)] of the known defects whose triggering condition holds for this evaluation; transform(n) removes the
     trigger from the solved copy n without changing the physics (counterfactual input)"""
     keep = set(internal) | set(boundary)
+    slack = set(net.ext_grid.bus[net.ext_grid.in_service]) | set(net.gen.bus[net.gen.in_service & net.gen.slack])
+    slack_moved = not slack & keep
+    if slack_moved:
+        boundary = list(boundary) + sorted(int(b) for b in slack)     # get_equivalent moves external slack buses to the boundary
+        keep |= slack
 
     def ext(n):
-        return [int(b) for b in n.bus.index if int(b) not in keep]
+        return [int(b) for b in n.bus.index if int(b) not in keep and n.bus.name.at[b] != "cf_xward_bus"]
     out = []
     wb, xb = _at(net, "ward", boundary), _at(net, "xward", boundary)
     if (eq in ("ward", "rei") and wb) or (eq in ("xward", "rei") and xb):
         def t_boundary(n):
             if eq in ("ward", "rei"):
                 _ward_as_load_shunt(n, _at(n, "ward", boundary))
-            if eq in ("xward", "rei"):
-                _xward_as_elements(n, _at(n, "xward", boundary))
+            # the PV buses of expanded boundary xwards are retained (passed as internal buses)
+            return _xward_as_elements(n, _at(n, "xward", boundary)) if eq in ("xward", "rei") else None
         out.append(("ward_element_on_boundary_bus", t_boundary))
     if _at(net, "xward", ext(net)):
-        out.append(("external_xward_replaced_with_wrong_impedance", lambda n: _xward_as_elements(n, _at(n, "xward", ext(n)))))
+        out.append(("external_xward_replaced_with_wrong_impedance", lambda n: _xward_as_elements(n, _at(n, "xward", ext(n))) and None))
+
+    if eq == "xward" and slack_moved and _at(net, "gen", ext(net)):
+        # the xward reduction grounds every external PV bus (diagonal 1e8): a slack bus that was moved to the boundary and reaches the
+        # retained part only through such buses is cut off, all angles shift. Counterfactual: external gens as sgens with their result
+        def t_gens(n):
+            for i in _at(n, "gen", ext(n)):
+                pp.create_sgen(n, n.gen.bus.at[i], float(n.res_gen.p_mw.at[i]), float(n.res_gen.q_mvar.at[i]), name="cf")
+                n.gen.drop(i, inplace=True)
+        out.append(("xward_grounded_pv_bus_cuts_off_moved_slack", t_gens))
 
     def t_as_load(n, kinds):
         for el in kinds:
@@ -277,16 +294,16 @@ def explain(net, eq, o, internal, boundary, external, res0, out):
     trials = [[c] for c in cand] + ([cand] if len(cand) > 1 else [])
     last = out
     for trial in trials:
-        n2 = copy.deepcopy(net)
+        n2, more = copy.deepcopy(net), []
         try:
             for _, tf in trial:          # the order of mechanisms() matters: xwards are expanded before shunts become loads
-                tf(n2)
+                more += tf(n2) or []
                 pp.runpp(n2, calculate_voltage_angles=True)
         except Exception:  # noqa
             continue
         if np.nanmax(np.abs(n2.res_bus.vm_pu.loc[res0.index].values - res0.vm_pu.values)) > 1e-8:
             continue                                  # the counterfactual input is not the same operating point
-        last = evaluate(n2, eq, o, internal, boundary, res0)
+        last = evaluate(n2, eq, o, internal, boundary, res0, more)
         if last["kind"] == "ok":
             return [name for name, _ in trial]
     # REI replaced a (numerically) zero impedance between two REI buses by a bus-bus switch and dropped their shunts
